@@ -19,7 +19,7 @@ from . import _c06_gen as G
 ID = "C06"
 LEVEL = "exploration"
 RULE = (
-    "class-directed random n-gram tables (orders 1-4, V 1-6 and V 10-24 for the integer-width classes; "
+    "class-directed random n-gram tables (orders 1-4, V 1-6 and V 10-60 for the integer-width classes; "
     "dense / prefix+suffix closed / arbitrary subsets with missing lower-order suffixes and contexts / "
     "-inf entries with children / empty middle order / an inner trie node fatter than any node nearer the root / level sizes straddling 255 / order-4 tables whose "
     "absolute node positions exceed the 8-bit offset type; sos inside, outside (V, V+3, 1000) and negative), "
